@@ -45,6 +45,9 @@ def scenarios(ctx, rng):
           ent("k", old, {"time": "7"}), ent("k", new, {"metadata": {"v": 2}}))
         S("remove", mode, {"op": "remove", "cache": "<C>", "key": "k"}, [W("k", old, {"time": "7"})], "k",
           ent("k", old, {"time": "7"}), None)
+        # the bytes being written are already stored (same key re-put with new metadata; they are also bystander by-2's)
+        S("reput-unchanged-data", mode, W("k", old, {"metadata": {"v": 2}}), [W("k", old, {"time": "7"})], "k",
+          ent("k", old, {"time": "7"}), ent("k", old, {"metadata": {"v": 2}}))
         S("utf8-key-and-metadata", mode, W(ukey, new, {"metadata": umeta}), [W(ukey, old, {"time": "7"})], ukey,
           ent(ukey, old, {"time": "7"}), ent(ukey, new, {"metadata": umeta}))
         def history_until(limit):
@@ -84,7 +87,7 @@ def scenarios(ctx, rng):
     return out, new
 
 
-CONTINUATIONS = ["write-same-shorter", "write-same-longer", "remove", "write-other", "rewrite-old"]
+CONTINUATIONS = ["write-same-shorter", "write-same-longer", "remove", "write-other", "rewrite-old", "retry-interrupted"]
 
 
 def run(ctx):
@@ -94,7 +97,7 @@ def run(ctx):
                 "one-shot write} x modes. EVERY visible call is a kill point; the index append is torn at EVERY prefix "
                 "length 0..len-1. After each kill fresh processes (sync and async) evaluate metadata/read/list for the "
                 "key and 3 bystander keys (one sharing the content address): allowed = exactly the old or exactly the "
-                "new entry; new visible => its data readable. Then a continuation from {write same key shorter/longer, "
+                "new entry; new visible => its data readable. Then a continuation from {the interrupted call repeated verbatim, write same key shorter/longer, "
                 "remove, write other key, re-write old value} must succeed and become visible. distinct = (scenario, "
                 "mode, kill point, torn length)")
     ctx.assumptions = ["process kill only (no power loss)", "one interrupted operation at a time"]
@@ -173,7 +176,7 @@ def run(ctx):
                         c2dir = rdir + f"-c{ci}"
                         shutil.copytree(rdir, c2dir, symlinks=True)
                         c2 = os.path.join(c2dir, "cache")
-                    continuation(ctx, c2, key, old, new, which, cname, sig, det)
+                    continuation(ctx, c2, key, old, new, which, cname, sig, det, sc)
                     if c2 != cache:
                         ctx.rm(os.path.dirname(c2))
             ctx.rm(rdir)
@@ -242,7 +245,7 @@ def judge_state(ctx, cache, key, old, new, sig, det):
     return st
 
 
-def continuation(ctx, cache, key, old, new, which, cname, sig, det):
+def continuation(ctx, cache, key, old, new, which, cname, sig, det, sc=None):
     m = ["sync@astd", "async@astd", "async@tok"][hash(cname) % 3]
     cur = new if which == "new" else old
     ctx.count(f"continuations[{cname}]")
@@ -257,6 +260,13 @@ def continuation(ctx, cache, key, old, new, which, cname, sig, det):
     elif cname == "remove":
         w = ctx.call(m, {"op": "remove", "cache": cache, "key": key})
         exp = None
+    elif cname == "retry-interrupted":
+        # what a caller does first after a crash: the very same call again (byte-identical request, same explicit time)
+        if sc is None or new == "oneshot":
+            return
+        m = sc.mode
+        w = ctx.call(m, crash.subst(sc.req, cache))
+        exp = new
     else:
         w = ctx.call(m, {"op": "write", "cache": cache, "key": "another-key", "data": ctx.data(b"another")})
         exp = cur
